@@ -291,6 +291,10 @@ input:
         s:
           type: {type_id: string}
           required: true
+        nick:
+          type: {type_id: string}
+          required: false
+          default: '"x"'
 steps:
   w:
     plugin: {src: "item", deployment_type: "builtin"}
@@ -632,8 +636,16 @@ func raceWorkload(c *common, w *lineWriter, prepareOverlap bool, only string) {
 					cancels[0] = 8 + cr.intn(15)
 				}
 			}
-			runPrepared(text, map[string][]byte{"sub.yaml": []byte(raceForeachSub)}, beh, input, 1, cancels, &run)
-			run.Extra = map[string]any{"items": n, "parallelism": par, "cancel_ms": cancels}
+			// the items leave out a defaulted property of the sub-workflow input; half of the plain foreach cases run the
+			// PARENT three times at once (the parents check the items against the sub-workflow's input schema while the
+			// items' own runs use it)
+			k := 1
+			if sc == "foreach" && cr.chance(1, 2) {
+				k = 3
+				cancels = []int{-1, -1, -1}
+			}
+			runPrepared(text, map[string][]byte{"sub.yaml": []byte(raceForeachSub)}, beh, input, k, cancels, &run)
+			run.Extra = map[string]any{"items": n, "parallelism": par, "cancel_ms": cancels, "calls": k}
 		case "overlap-after-run":
 			raceOverlapAfterRun(cr, &run)
 		case "stopif", "stopif-cancel":
